@@ -206,7 +206,26 @@ def direct_k12_repro(args):
     return bool(len(replaced) == 1), dict(replaced=replaced, expected_if_k_worst=2)
 
 
-DIRECT = {'k7_span': direct_k7_span, 'k8_aiwpso': direct_k8_aiwpso, 'k9_nan': direct_k9_nan,
+def direct_k15_mutate(args):
+    """a tree straight out of TreeSpace (its terminals are the space's terminal arrays) is mutated: the parent's value
+    before and after the call"""
+    import lib
+    L = lib.load()
+    np = L['np']
+    np.random.seed(args.get('seed', 3))
+    sp = L['TreeSpace'](n_trees=3, n_terminals=2, n_variables=2, n_iterations=1, min_depth=2, max_depth=4,
+                        functions=['SUM', 'MUL'], lower_bound=[0, 0], upper_bound=[10, 10])
+    gp = L['kinds']['GP']()
+    t = sp.trees[0]
+    before = np.array(t.position, copy=True)
+    other = np.array(sp.trees[1].position, copy=True)
+    gp._mutate(sp, t, t.n_nodes)
+    changed = not np.array_equal(before, t.position, equal_nan=True)
+    return bool(changed), dict(parent_before=before.tolist(), parent_after=np.asarray(t.position).tolist(),
+                               bystander_changed=not np.array_equal(other, sp.trees[1].position, equal_nan=True))
+
+
+DIRECT = {'k15_mutate': direct_k15_mutate, 'k7_span': direct_k7_span, 'k8_aiwpso': direct_k8_aiwpso, 'k9_nan': direct_k9_nan,
           'k10_pointer': direct_k10_pointer, 'k10_node': direct_k10_node, 'k10_opytimizer': direct_k10_opytimizer,
           'k11_clock': direct_k11_clock, 'k12_repro': direct_k12_repro}
 
